@@ -77,6 +77,17 @@ def gen_deepq_scenario(rng, tier):
     return scn
 
 
+def with_stop(events):
+    """ the stop request is logged when the collector thread's event is set (whoever sets it);
+    should the code have no such hook point any more, the request is placed right before the
+    thread's exit - it cannot have come later, and the model still refuses it there unless
+    every task had finished """
+    if ['texit', 0, 0] in events and ['stop', 0, 0] not in events:
+        i = events.index(['texit', 0, 0])
+        return events[:i] + [['stop', 0, 0]] + events[i:]
+    return events
+
+
 def run_mp(scn):
     """ the real multi-process run, with the hand-over trace """
     core.import_searchkit()
@@ -131,12 +142,31 @@ def run_mp(scn):
                 time.sleep(dmax / 2)
         return orig_add(self, results)
 
+    stopped = {'logged': False}
+
+    def log_stop():
+        if not stopped['logged']:
+            stopped['logged'] = True
+            log('stop', 0, 0)
+
     def stop(self):
         if self.name == 'results' and self.running:
-            log('stop', 0, 0)
+            log_stop()
         return orig_stop(self)
 
     def _get_results(event, results, results_queue):
+        # the stop request = the moment the thread's event is set, by whatever method
+        orig_set = event.set
+
+        def set_():
+            log_stop()
+            return orig_set()
+        try:
+            event.set = set_
+        except AttributeError:
+            pass
+        if event.is_set():
+            log_stop()
         try:
             return orig_get(event, results, results_queue)
         finally:
@@ -219,7 +249,7 @@ def run_mp(scn):
                 k, a, b = line.rstrip('\n').split('\t')
                 events.append([k, int(a), int(b)])
         obs['qfull'] = sum(1 for e in events if e[0] == 'qfull')
-        obs['events'] = [e for e in events if e[0] != 'qfull']
+        obs['events'] = with_stop([e for e in events if e[0] != 'qfull'])
         obs['consts'] = {'FLUSH': TK.NUM_BUFFERED_RESULTS, 'MAXB': TK.QueueTransitBuffer.MAX}
         return obs
     finally:
